@@ -681,8 +681,62 @@ def layer_import(ctx, n):
         shutil.rmtree(root, ignore_errors=True)
 
 
+# ---------------------------------------------------------------------------
+# the expression evaluator: the long-lived helper (chameleon.compiler.ExpressionEvaluator) applications hand to their
+# templates to evaluate expression strings known only at render time.  One instance serves a history of requests
+# (expression type, string) - the same string under several types, the same request again, curried and direct calls -
+# and every answer has to be the value (or exception class) the same expression has when it stands in a template.
+EV_STRINGS = ['n', 's', 'missing', 'lst', 'd', 'n + 1', 'len(lst)', 's.upper()', 'd.k', 'nothing', 'default', 't or s', "'q'", '0', '',
+              'x', 'v', 'str', 'n | s', 'missing | n', '${n}', 'a${s}b', 'lst[0]', 'lst[5]', 'd.nokey', 'int(s)', '1/0', ' n ']
+EV_TYPES = ['python', 'string', 'exists', 'not', 'structure', 'python', 'string']
+
+
+def _via_template(typ, string, env):
+    from chameleon import PageTemplate
+    got = []
+    src = '<p tal:define="r %s:%s" tal:content="cap(r)"/>' % (typ, string.replace('&', '&amp;').replace('"', '&quot;').replace(';', ';;'))
+    try:
+        PageTemplate(src)(cap=got.append, **env)
+    except Exception as e:
+        return 'RAISED ' + type(e).__name__
+    return 'VALUE %s %r' % (type(got[0]).__name__, got[0])
+
+
+def layer_evaluator(ctx, n):
+    from chameleon import PageTemplate
+    from chameleon.compiler import ExpressionEvaluator
+    from chameleon.utils import Scope
+    rng = ctx.rng
+    owner = PageTemplate('<p/>')
+    for h in range(n):
+        ev = ExpressionEvaluator(owner.engine, owner.builtins)
+        env = {'n': rng.choice([0, 3]), 's': rng.choice(['es<b>', '12x', '']), 't': '', 'lst': [1, 2], 'd': {'k': 'dk'},
+               'x': rng.choice([None, 'X']), 'v': 'V&'}
+        pool = rng.sample(EV_STRINGS, 4)
+        trace = []
+        for k in range(rng.randint(4, 10)):
+            typ, string = rng.choice(EV_TYPES), rng.choice(pool)
+            curried = rng.random() < .3
+            trace.append((typ, string, curried))
+            try:
+                sc = Scope(dict(env))
+                r = ev(sc, {}, typ)(string) if curried else ev(sc, {}, typ, string)
+                got = 'VALUE %s %r' % (type(r).__name__, r)
+            except Exception as e:
+                got = 'RAISED ' + type(e).__name__
+            want = _via_template(typ, string, env)
+            ctx.mon('evaluator-requests-compared')
+            ctx.case(key=('ev', typ, string, tuple(sorted((k2, repr(v2)) for k2, v2 in env.items()))), nontrivial=True)
+            if got != want:
+                ctx.violation('evaluator-answer-differs-from-the-expression-in-a-template',
+                              'request %d of the history %r on one ExpressionEvaluator: %s:%s gives %s, the same expression in a template %s'
+                              % (k, trace, typ, string, got, want), {'kind': 'ev', 'trace': trace, 'env': env})
+                break
+
+
 def run(ctx):
     monitors.install(ctx, tokalg=False)
+    layer_evaluator(ctx, 60 if ctx.quick else 600)
     layer_import(ctx, 40 if ctx.quick else 200)
     layer_model(ctx, 300 if ctx.quick else 2500)
     layer_python(ctx, 350 if ctx.quick else 3000)
@@ -697,6 +751,24 @@ def replay(data):
         monitors.install(ctx, tokalg=False)
         layer_import(ctx, 40)
         return bool(ctx.violations), '\n'.join(v['what'] for v in ctx.violations) or 'all import: shapes behave'
+    if data.get('kind') == 'ev':
+        from chameleon import PageTemplate
+        from chameleon.compiler import ExpressionEvaluator
+        from chameleon.utils import Scope
+        owner = PageTemplate('<p/>')
+        ev = ExpressionEvaluator(owner.engine, owner.builtins)
+        lines, bad = [], False
+        for typ, string, curried in data['trace']:
+            try:
+                sc = Scope(dict(data['env']))
+                r = ev(sc, {}, typ)(string) if curried else ev(sc, {}, typ, string)
+                got = 'VALUE %s %r' % (type(r).__name__, r)
+            except Exception as e:
+                got = 'RAISED ' + type(e).__name__
+            want = _via_template(typ, string, data['env'])
+            bad = bad or got != want
+            lines.append('%s:%s -> evaluator %s, template %s' % (typ, string, got, want))
+        return bad, '\n'.join(lines)
     if data.get('kind') == 'py':
         from chameleon import PageTemplate
         env = exprs.make_env()
